@@ -36,9 +36,15 @@ def emit(evs, start_id_name):
     return out
 
 
+def filler(case):
+    """hundreds of unrelated same-thread records at the head of the window (a long-running operation)"""
+    n = case.get('long', 0)
+    return [SC.junk(TID, case['seed'] + j, j % 7) for j in range(n)]
+
+
 def build(case, start_name):
     """case['items']: list of [kindname_or_None, seed, tid_is_other, qualifier]"""
-    evs = [SC.ev(TID, start_name, 1, case['seed'], 0)]
+    evs = [SC.ev(TID, start_name, 1, case['seed'], 0)] + filler(case)
     for i, (code, sd, other, _) in enumerate(case['items']):
         evs.append(SC.ev(OTHER if other else TID, code, 0, sd, i))
     evs.append(SC.ev(TID, start_name, 2, case['seed'], 1))
@@ -89,7 +95,7 @@ def prop_vmfault(ctx, case):
 
 def prop_launch(ctx, case):
     start = 'DBG_DYLD_TIMING_LAUNCH_EXECUTABLE'
-    evs = [SC.ev(TID, start, 1, case['seed'], 0)]
+    evs = [SC.ev(TID, start, 1, case['seed'], 0)] + filler(case)
     for i, (code, sd, other, ai) in enumerate(case['items']):
         w = words(sd, i)
         w[2] = ADDR_POOL[ai % len(ADDR_POOL)] if ai < 100 else w[2]
@@ -119,6 +125,7 @@ def prop_sample(ctx, case):
         evs += [EV.E(TID, code, 0, args=words(sd, i)) for i, (code, sd, other, _) in enumerate(case['items'])]
     else:
         evs.append(EV.E(TID, 'PERF_Event', 1, args=[flags, 3, 0, 0]))
+        evs += filler(dict(case, seed=case.get('fseed', 1)))
         for i, (code, sd, other, nf) in enumerate(case['items']):
             w = words(sd, i)
             if code == 'PERF_STK_UHdr':
@@ -177,11 +184,12 @@ def items(kinds, max_n, extra=st.integers(0, 120)):
 
 
 def run(ctx):
-    vm = st.fixed_dictionaries({'seed': S.u64, 'items': items(SC.REAL_FAULT_KINDS, 5)})
-    la = st.fixed_dictionaries({'seed': S.u64, 'items': items(SC.LAUNCH_NESTED, 8)})
+    long_ = st.sampled_from([0] * 30 + [600, 1100])
+    vm = st.fixed_dictionaries({'seed': S.u64, 'items': items(SC.REAL_FAULT_KINDS, 5), 'long': long_})
+    la = st.fixed_dictionaries({'seed': S.u64, 'items': items(SC.LAUNCH_NESTED, 8), 'long': long_})
     sa = st.fixed_dictionaries({'flags': st.one_of(st.integers(0, 2 ** 14 - 1), st.sampled_from([0, 1, 8, 9, 0x3fff, 0x3ff6]),
                                                    st.tuples(st.integers(0, 2 ** 14 - 1), st.sampled_from([9, 9, 8, 1])).map(lambda t: t[0] | t[1])),
-                                'windowless': st.sampled_from([False, False, False, True]), 'q': st.sampled_from([0, 3]),
+                                'windowless': st.sampled_from([False, False, False, True]), 'q': st.sampled_from([0, 3]), 'long': long_, 'fseed': S.u64,
                                 'items': items(['PERF_THD_Data', 'PERF_STK_UHdr', 'PERF_STK_UData', 'PERF_STK_UData'], 7,
                                                st.integers(0, 13))})
     ctx.run_given('vmfault', vm, prop_vmfault, ctx.n(600, 9000))
